@@ -365,7 +365,7 @@ pub fn gen_c13(tier: &str, seed: u64, out: &str, mc: Option<&str>) -> Value {
     if let Some(p) = mc {
         if let Ok(txt) = std::fs::read_to_string(p) {
             let lines: Vec<&str> = txt.lines().collect();
-            let stride = if tier == "thorough" { 1 } else { (lines.len() / 600).max(1) };
+            let stride = if tier == "thorough" { (lines.len() / 25000).max(1) } else { (lines.len() / 600).max(1) };
             for (li, line) in lines.iter().enumerate() {
                 if li % stride != 0 { continue; }
                 let v: Value = match serde_json::from_str(line) { Ok(v) => v, Err(_) => continue };
